@@ -407,7 +407,74 @@ class MsgFamily(Family):
         return True
 
 
-FAMILIES = {f.name: f for f in [TimeFamily(), AmfFamily(), AmfAdvFamily(), ChunkFamily(), ForeignFamily(), MsgFamily()]}
+# --------------------------------------------------------------------------------------------- hs
+import gen_hs as GH
+
+
+class HsFamily(Family):
+    name = "hs"
+    timeout_s = 600
+    anchored = ["rtmp/src/handshake/mod.rs"]
+    rule = ("C11: for both roles and EVERY digest offset 0..727 a fill selecting that offset (hs.gen: model vs real packet, byte-exact "
+            "under hook H1; !hs.p1: digest verified with the harness' own HMAC); for both roles, both position schemes and every "
+            "offset a crafted peer packet 1 (Python hmac) → hs.proc (model vs real packets) and !hs.p2 (signature verified "
+            "independently); digest-less, wrong-key and corrupted-digest packets → exact echo.  C05: exchanges between two real "
+            "handshakes (and against a hand-written original-handshake client) under fragmentations {1 byte, random, packet-aligned, "
+            "spanning, everything at once}, either/both/no side starting, trailing application bytes {0, 1, 300, 4096} (!hs.pair), and "
+            "the same exchanges as hs.xfer schedules interpreted by model and implementation; non-trivial = every case; distinct = "
+            "distinct op text")
+
+    def gen(self, rng, tier, pid, stats):
+        yield ["sha.selftest"]
+        if pid in ("C11", "C03"):
+            step = 1 if tier == "thorough" or pid == "C11" else 8
+            for role in ("c", "s"):
+                for o in range(0, 728, step):
+                    f1 = GH.fill1_for_offset(rng, role, o)
+                    bump(stats, "own_p1_offsets")
+                    yield [f"hs.new a {role} {hexb(f1)} {hexb(rng.bytes(1536))}", "hs.gen a", f"!hs.p1 {role} {hexb(f1)}"]
+            for role in ("c", "s"):
+                key = GH.FP if role == "s" else GH.FMS      # the PEER's key
+                for scheme in ("c", "s"):
+                    for o in range(0, 728, step if tier == "thorough" else max(step, 2)):
+                        p1 = GH.craft_p1(rng, scheme, o, key)
+                        f1, f2 = rng.bytes(1524), rng.bytes(1536)
+                        bump(stats, "received_p1_offsets")
+                        yield [f"hs.new a {role} {hexb(f1)} {hexb(f2)}", f"hs.proc a 03{p1.hex()}", f"!hs.p2 {role} {p1.hex()} {hexb(f1)} {hexb(f2)}"]
+                # digest-less / wrong key / corrupted digest → echo
+                for kind in range(12):
+                    if kind % 3 == 0: p1 = rng.bytes(1536)
+                    elif kind % 3 == 1: p1 = GH.craft_p1(rng, rng.choice("cs"), rng.below(728), GH.FMS if role == "s" else GH.FP)
+                    else: p1 = GH.craft_p1(rng, rng.choice("cs"), rng.below(728), key, valid=False)
+                    f1, f2 = rng.bytes(1524), rng.bytes(1536)
+                    bump(stats, "echo_cases")
+                    yield [f"hs.new a {role} {hexb(f1)} {hexb(f2)}", f"hs.proc a 03{p1.hex()}", f"!hs.p2 {role} {p1.hex()} {hexb(f1)} {hexb(f2)}"]
+        if pid in ("C05", "C03"):
+            n = 150 if tier == "quick" else 1500
+            parts = ["1", "all", "1536", "1537", "1535,2", "7,300", "3073", "2000,1000,73,1", "1,1536,1536", "40"]
+            for i in range(n):
+                starter = rng.choice(["a", "b", "both", "none"])
+                ta = rng.bytes(rng.choice([0, 1, 300, 4096]))
+                tb = rng.bytes(rng.choice([0, 1, 300, 4096]))
+                peer = "orig" if rng.chance(1, 4) else "lib"
+                sa = rng.choice(parts) if rng.chance(2, 3) else ",".join(str(rng.range(1, 2000)) for _ in range(3))
+                sb = rng.choice(parts) if rng.chance(2, 3) else ",".join(str(rng.range(1, 2000)) for _ in range(3))
+                bump(stats, f"pair_{peer}_{starter}")
+                ops = [f"!hs.pair {starter} {sa} {sb} {hexb(ta)} {hexb(tb)} {peer}"]
+                # the same kind of exchange, interpreted by model and implementation
+                ops += [f"hs.new a c {hexb(rng.bytes(1524))} {hexb(rng.bytes(1536))}", f"hs.new b s {hexb(rng.bytes(1524))} {hexb(rng.bytes(1536))}"]
+                ops += GH.exchange_ops(rng, starter, ta[:64], tb[:64], stats)
+                yield ops
+            # a bad version byte, input after completion, an original-handshake client (digest-less) byte by byte
+            yield [f"hs.new a s {hexb(rng.bytes(1524))} {hexb(rng.bytes(1536))}", "hs.proc a 06"]
+            yield [f"hs.new a s {hexb(rng.bytes(1524))} {hexb(rng.bytes(1536))}", "hs.proc a -", "hs.proc a -", "hs.proc a 03", f"hs.proc a {hexb(rng.bytes(1535))}",
+                   f"hs.proc a {hexb(rng.bytes(1))}", f"hs.proc a {hexb(rng.bytes(1535))}", f"hs.proc a {hexb(rng.bytes(5))}", "hs.proc a 00"]
+
+    def nontrivial(self, ops):
+        return len(ops) > 1
+
+
+FAMILIES = {f.name: f for f in [TimeFamily(), AmfFamily(), AmfAdvFamily(), ChunkFamily(), ForeignFamily(), MsgFamily(), HsFamily()]}
 
 
 # ------------------------------------------------------------------------------- known findings
